@@ -140,7 +140,7 @@ def run(ck, prog):
         "to array indices; domain equality with the reference {0<=j<i<=N-1} is decided by Fourier-Motzkin in both "
         "directions, the term by polynomial identity, the post-processing by normal form (PAIRSUM/N).")
     ck.assumptions += ["float evaluation differs from the exact value by rounding only (not analysed)"]
-    check_charge_map(ck, prog)
+    ck.attempt(check_charge_map, ck, prog)
     f = prog.fn(SEQ, "Sequence.sequence_charge_decoration")
     construct = SEQ_PATH + ":Sequence.sequence_charge_decoration"
     code = pair_sum(prog, f, Evaluator(prog))
@@ -171,4 +171,4 @@ def run(ck, prog):
           note="(1/N) * sum")
     ck.ob("DEP", construct, code["reads"] == ["cp"], expected=["cp"], found=code["reads"], slot="reads",
           where=f.loc(), note="SCD reads the sequence only through its charge pattern")
-    check_api(ck, prog, [("get_SCD", "sequence_charge_decoration", None)])
+    ck.attempt(check_api, ck, prog, [("get_SCD", "sequence_charge_decoration", None)])
